@@ -235,6 +235,14 @@ func (f *Frame) doUnOp(x *ssa.UnOp) {
 	switch x.Op {
 	case token.MUL:
 		f.nilCheck(x.X, x.Pos(), "*")
+		if pt, ok := x.X.Type().Underlying().(*types.Pointer); ok {
+			if _, isStruct := structOf(pt.Elem()); isStruct && f.p.ownStruct(pt.Elem()) {
+				f.structs[x] = f.loadStruct(f.val(x.X), pt.Elem())
+				f.vals[x] = f.enc.declConst(f.enc.fresh(f.sym(x.Name())), f.p.sortOf(x.Type()))
+				f.enc.declSortOf(f.vals[x].Sort)
+				return
+			}
+		}
 		lv := f.lvOf(x.X)
 		v := f.setVal(x, f.load(lv, x.Type()))
 		f.loadFactsB(v, x.Type(), f.lvBound(lv))
@@ -290,6 +298,11 @@ func (f *Frame) dataInvFacts(v T, t types.Type, lv *LV, addr ssa.Value) {
 				cl = f.p.elemInvs[what]
 			}
 		}
+	}
+	if tcl := f.p.typeInvs[f.p.typeNameOrString(t)]; tcl != nil {
+		tr := &Translator{f: f, cur: f.st, old: f.st, bound: map[string]tv{"v": {v, t}}}
+		f.enc.factAbout(v, tr.boolExpr(tcl.Expr))
+		f.enc.assumed["data-structure invariant (trusted): values of type "+f.p.typeNameOrString(t)+": "+tcl.Src] = true
 	}
 	if cl == nil {
 		return
@@ -540,6 +553,18 @@ func (p *Program) tagKindAsserts() string {
 
 func (f *Frame) doStore(x *ssa.Store) {
 	f.nilCheck(x.Addr, x.Pos(), "store")
+	if leaves, ok := f.structs[x.Val]; ok {
+		// struct value copy: field by field (frame checks apply per leaf through the address)
+		if f.frameHook != nil {
+			for _, l := range leaves {
+				blv := f.lvs[x.Addr]
+				fresh := blv != nil && blv.fresh
+				f.frameHook(f, &LV{kind: lvField, arr: l.arr, asort: l.asort, idx: Add(f.val(x.Addr), IntLit(l.off)), fresh: fresh}, x.Addr, x.Pos())
+			}
+		}
+		f.storeStruct(f.val(x.Addr), leaves)
+		return
+	}
 	lv := f.lvOf(x.Addr)
 	f.frameCheck(lv, x.Addr, x.Pos())
 	f.store(lv, f.val(x.Val))
